@@ -6,3 +6,7 @@ CLAIMS["C24"] = ("proof",
   "The converter's contract (panics iff the address is below Offset or owned by another element; otherwise result = (a div IS*N)*IS + a mod IS with a = external-Offset) is proved on the real ConvertExternalToInternal/ConvertAddress/bankSelectionAddress for all 64-bit inputs; order preservation, injectivity, in-stripe and stripe-to-stripe contiguity and agreement with InterleavedAddressPortMapper.Find are lemmas proved from that postcondition over the unique decomposition a=(k*N+o)*IS+m.",
   "Precondition: IS>0, N>0, 0<=idx<N, IS*N<2^64 (a configuration for which IS*N wraps is outside the claim). Mapper agreement is stated for offsets that are multiples of IS*N (the only offsets the mapper can express). simplebankedmemory.selectBank (power-of-two shift) is not under contract.",
   "DESIGN.md §5 C24")
+CLAIMS["C14"] = ("proof",
+  "Every Buffer[T] operation named in the property (NewBuffer, PushTyped, Pop, Peek, UpdateFront, Clear, Elements, Restore, Size, Capacity, CanPush, Name) has a contract over the view 'elements as a sequence' - whole-view postconditions (length, every index, name and capacity unchanged, refusal exactly at capacity, zero value when empty, Elements/Restore copy) - proved on the generic body for every T, every capacity and every content length, including both append branches (in place / reallocate) and aliasing of backing arrays.",
+  "Trusted: hooking.NumHooks/InvokeHook do not modify the buffer (hooks are arbitrary callbacks). The JSON round-trip clause of the property is handled under C08 (not claimed yet). Replay covers the first 6 elements of a counterexample.",
+  "DESIGN.md §5 C14")
